@@ -76,6 +76,12 @@ def worker_main():
                 break
     agg["wall"] = time.perf_counter() - t0
     faulthandler.cancel_dump_traceback_later()
+    try:
+        from . import restart_server
+
+        restart_server.CLIENT.close()
+    except Exception:   # noqa: BLE001
+        pass
     for k in ("states", "transitions", "seqs", "seqs_nontrivial"):
         agg[k] = sorted(agg[k])
     sys.stdout.write(json.dumps(agg))
@@ -399,11 +405,17 @@ def main(argv=None):
     ap.add_argument("--json", action="store_true")
     ap.add_argument("--setup", action="store_true")
     ap.add_argument("--worker", action="store_true")
+    ap.add_argument("--restart-server", action="store_true")
     ap.add_argument("--runs", type=int)
     ap.add_argument("--workers", type=int)
     ap.add_argument("--no-evidence", action="store_true")
     a = ap.parse_args(argv)
     try:
+        if a.restart_server:
+            from . import restart_server
+
+            restart_server.serve()
+            return 0
         if a.worker:
             worker_main()
             return 0
